@@ -705,17 +705,19 @@ func (g *gen) event() message.Message {
 
 // ---------------------------------------------------------------- ERROR
 
-// writeType: SIMPLE..BATCH_LOG in every spec; CAS, VIEW and CDC are listed by native_protocol_v5.spec
-// only. forFailure: WRITE_FAILURE decoding validates the type with WriteType.IsValid, which lacks CAS
+// writeType: SIMPLE..BATCH_LOG in every spec. forFailure: WRITE_FAILURE decoding validates the type with WriteType.IsValid, which lacks CAS
 // (library defect, see GenKnownBad); WRITE_TIMEOUT does not validate, so CAS is fine there.
 func (g *gen) writeType(site string, forFailure bool) primitive.WriteType {
 	wts := []primitive.WriteType{primitive.WriteTypeSimple, primitive.WriteTypeBatch, primitive.WriteTypeUnloggedBatch,
 		primitive.WriteTypeCounter, primitive.WriteTypeBatchLog}
-	if g.v5only {
+	// CAS is a write type since lightweight transactions exist (listed from native_protocol_v3.spec on);
+	// VIEW and CDC are listed from native_protocol_v4.spec on, hence also for DSE1/DSE2. Only the
+	// <contentions> field that follows a CAS write type is v5-only.
+	if g.v3 && (!forFailure || GenKnownBad) {
+		wts = append(wts, primitive.WriteTypeCas)
+	}
+	if g.v4 {
 		wts = append(wts, primitive.WriteTypeView, primitive.WriteTypeCdc)
-		if !forFailure || GenKnownBad {
-			wts = append(wts, primitive.WriteTypeCas)
-		}
 	}
 	return wts[g.t.Draw(site, len(wts))]
 }
@@ -752,7 +754,7 @@ func (g *gen) errorMsg() message.Message {
 		{"WriteTimeout", func() message.Message {
 			m := &message.WriteTimeout{ErrorMessage: msg(), Consistency: g.consistency("err.cl"), Received: g.i32("err.received"),
 				BlockFor: g.i32("err.blockfor"), WriteType: g.writeType("err.wtype", false)}
-			if m.WriteType == primitive.WriteTypeCas { // <contentions>: v5 and CAS only (error.go:492); writeType gives CAS to v5 only
+			if m.WriteType == primitive.WriteTypeCas && g.v5only { // <contentions>: v5 and CAS only (error.go:492)
 				m.Contentions = uint16(g.t.Draw("err.contentions", 1<<16))
 			}
 			return m
